@@ -520,6 +520,11 @@ impl Replayer {
                 let party = self.w.parties.get_mut(&p).unwrap();
                 let g = party.group.as_mut().unwrap();
                 let pre = g.verif_state();
+                // were the queued updates modified since they were loaded (or merely cached)?
+                let modified_before = match self.w.written.get(&p) {
+                    Some(w0) if w0.pending_update_epochs().is_empty() => { let gs0 = party.gs.clone(); !pre.pending_updates_only_cached(w0, |id| gs0.peek_epoch(&gid0, id)) }
+                    _ => false,
+                };
                 match g.write_to_storage() {
                     Ok(()) => {
                         let st = g.verif_state();
@@ -533,7 +538,10 @@ impl Replayer {
                                 viol!(self, ["C06", "C19"], "stored-update-lost", "{p}: after write_to_storage a stored prior epoch among {upd:?} is not the record that was queued for update");
                             }
                             self.w.bump("stored_update_checks");
-                            if upd.windows(2).any(|w| w[0] > w[1]) { self.w.bump("stored_update_checks:newer-epoch-first"); }
+                            if upd.windows(2).any(|w| w[0] > w[1]) {
+                                self.w.bump("stored_update_checks:newer-epoch-first");
+                                if modified_before { self.w.bump("stored_update_checks:newer-epoch-first:modified"); }
+                            }
                         }
                         self.w.written.insert(p.clone(), st);
                         // C07: once the joiner persists its group the used key package is gone from its store
